@@ -132,6 +132,17 @@ Section Polygon.
     merge_holes wrap P (length (pinner P)) (loop_open (pouter P)) [] 0 0.
   Definition poly_get_closed_loop := poly_get_closed_loop_gen false.
 
+  (** histories of candidate holes applied to a polygon object: `cut_hole(&mut self, ..)` only mutates
+      on its way to `Ok(())` (the two assignments are the last statements), so a refused call keeps the
+      previous state *)
+  Definition poly_step (P : Poly) (hole : Loop K) : Poly * res unit :=
+    match poly_cut_hole P hole with Ok P' => (P', Ok tt) | Err c => (P, Err c) | Panic s => (P, Panic s) end.
+  Fixpoint poly_run (P : Poly) (hs : list (Loop K)) : Poly * list (res unit) :=
+    match hs with
+    | [] => (P, [])
+    | h :: tl => let '(P', o) := poly_step P h in let '(P'', os) := poly_run P' tl in (P'', o :: os)
+    end.
+
   Definition poly_contains_segment (P : Poly) (s : Seg K) : bool :=
     loop_contains_segment (pouter P) s || existsb (fun h => loop_contains_segment h s) (pinner P).
   Definition poly_outer_centroid (P : Poly) : V :=
